@@ -171,6 +171,9 @@ def run_case(spec):
                 coup = [lo, lo + hi, hi * lo + 1, lo**2 if isinstance(ops[0], BosonOp) else lo][int(rng.integers(4))]
                 if family == "mask":
                     coup = lo + hi
+                    mask_conserving = bool(rng.random() < 0.35)
+                    if mask_conserving:
+                        coup = lo + hi + secondq.R(int(rng.integers(1, 4)), 2)  # plus a number-conserving coupling
                 diag1 = h1 if rng.random() < 0.5 and family != "mask" else 0
                 H1b = [[diag1, coup], [Dagger(coup), -diag1 if diag1 != 0 else 0]]
                 H0M, H1M = sympy.Matrix(H0b), sympy.Matrix(H1b)
@@ -183,7 +186,13 @@ def run_case(spec):
                     a = ops[0]
                     kk = sympy.Symbol("k", integer=True, nonnegative=True)
                     which = int(rng.integers(3))
-                    if which == 0:
+                    if mask_conserving:
+                        # the mask also names the number-conserving part of the coupling between the two matrix states
+                        # (their levels differ by delta, so it can be eliminated)
+                        which = 3
+                        m01 = 1 + a + Dagger(a)
+                        mask_shifts = {(0, 1): {0, 1, -1}, (1, 0): {0, 1, -1}}
+                    elif which == 0:
                         m01 = a + Dagger(a)
                         mask_shifts = {(0, 1): {1, -1}, (1, 0): {1, -1}}
                     elif which == 1:
@@ -338,7 +347,7 @@ def run_case(spec):
 
 def finalize(c, tier, evaluations, distinct):
     reasons = []
-    need = dict(matrix_elements_compared=2000, operator_identities_checked=200, family_scalar=20, family_blocks=8, family_matrix_fd=8, family_mask=8, family_mask2=8, mask2_noncartesian=4, family_bigmatrix=6, family_multiblock=10, multiblock_fd=3,
+    need = dict(matrix_elements_compared=2000, operator_identities_checked=200, family_scalar=20, family_blocks=8, family_matrix_fd=8, family_mask=8, mask_variant_3=2, family_mask2=8, mask2_noncartesian=4, family_bigmatrix=6, family_multiblock=10, multiblock_fd=3,
                 stat_BosonOp=30, stat_FermionOp=15, stat_LadderOp=10, stat_SigmaMinus=10)
     for k, v in need.items():
         if c.get(k, 0) < v:
